@@ -136,8 +136,16 @@ func (v *Vue) Render(w io.Writer, filename string, data any) error {
 	// Merge front-matter data into the provided data (front-matter is authoritative)
 	dataMap := toMapData(data)
 	verifPoint(vpFMMerge, len(frontMatter), 0)
-	for k, v := range frontMatter {
-		dataMap[k] = v
+	if len(frontMatter) > 0 {
+		// never write into the caller's map
+		merged := make(map[string]any, len(dataMap)+len(frontMatter))
+		for k, v := range dataMap {
+			merged[k] = v
+		}
+		for k, v := range frontMatter {
+			merged[k] = v
+		}
+		dataMap = merged
 	}
 
 	// Create context for v-once attribute tracking
@@ -233,8 +241,16 @@ func (v *Vue) RenderFragment(w io.Writer, filename string, data any) error {
 	// Merge front-matter data into the provided data (front-matter is authoritative)
 	dataMap := toMapData(data)
 	verifPoint(vpFMMerge, len(frontMatter), 0)
-	for k, v := range frontMatter {
-		dataMap[k] = v
+	if len(frontMatter) > 0 {
+		// never write into the caller's map
+		merged := make(map[string]any, len(dataMap)+len(frontMatter))
+		for k, v := range dataMap {
+			merged[k] = v
+		}
+		for k, v := range frontMatter {
+			merged[k] = v
+		}
+		dataMap = merged
 	}
 
 	// Create context for v-once attribute tracking
